@@ -80,6 +80,11 @@ fn sweeps(tier: Tier) -> Vec<(&'static str, Strings)> {
     for cfg in &CONFIGS[1..] {
         v.push((if *cfg == "symbolic" { "symbolic-primed" } else { "words-primed" }, Strings::new(&alphabet(cfg, false), 3)));
     }
+    // ... and the same again with the registrations made by another (joined) thread: what this
+    // thread remembered about a lexeme must not survive a registration made elsewhere
+    for cfg in &CONFIGS[1..] {
+        v.push((if *cfg == "symbolic" { "symbolic-primed-xthread" } else { "words-primed-xthread" }, Strings::new(&alphabet(cfg, false), 3)));
+    }
     // character-class completeness (see FRAGMENTS_EXTRA), built-ins and the word configuration
     for cfg in ["builtin", "words"] {
         let mut a = fragments_wide();
@@ -292,6 +297,8 @@ impl Prop for C10 {
     fn run(&self, tier: Tier, stage: usize, a: u64, b: u64, out: &mut WorkerOut) {
         let sw = sweeps(tier);
         let (cfg, strings) = &sw[stage];
+        let xthread = cfg.ends_with("-xthread");
+        let cfg = &cfg.trim_end_matches("-xthread");
         let primed = cfg.ends_with("-primed");
         let cfg = &cfg.trim_end_matches("-primed");
         if primed {
@@ -301,8 +308,13 @@ impl Prop for C10 {
                 check_tokens(&prime.get(i), &before, "priming", out);
             }
         }
-        let ops = install(cfg);
-        let name = format!("{}{}", cfg, stage);
+        let ops = if xthread {
+            let c = cfg.to_string();
+            std::thread::spawn(move || install(&c)).join().expect("registration thread")
+        } else {
+            install(cfg)
+        };
+        let name = format!("{}{}", sw[stage].0, stage);
         for i in a..b {
             out.idx = Some(i);
             let s = strings.get(i);
